@@ -25,8 +25,8 @@ ASSUMPTIONS = ['reference evaluator: unary +/- tightest, then * / \\ (left to ri
 ALPHA = ['1', '2', '.5', '7', '+', '-', '*', '/', '\\', '(', ')', ' ']
 XALPHA = list('1.+-*/\\() a\n')
 BOUNDS = {'quick': {'eval_len': 5, 'extract_len': 4}, 'thorough': {'eval_len': 6, 'extract_len': 5}}
-FLOORS = {'quick': {'eval:enum': 200000, 'eval:random': 5000, 'eval:garbage': 5000, 'extract:enum': 100000},
-          'thorough': {'eval:enum': 3000000, 'eval:random': 100000, 'eval:garbage': 100000, 'extract:enum': 2000000}}
+FLOORS = {'quick': {'eval:intdiv': 1500, 'eval:token-enum': 15000, 'eval:mutation': 5000, 'eval:enum': 200000, 'eval:random': 5000, 'eval:garbage': 5000, 'extract:enum': 100000},
+          'thorough': {'eval:intdiv': 1500, 'eval:token-enum': 2500000, 'eval:mutation': 100000, 'eval:enum': 3000000, 'eval:random': 100000, 'eval:garbage': 100000, 'extract:enum': 2000000}}
 REQUIRED_MONITORS = ['oracle:value', 'oracle:malformed', 'oracle:extract-range']
 
 
@@ -275,7 +275,7 @@ def check_extract(s, pos, opt, cls, ctx, api):
 
 def rand_expr(rng, depth):
     if depth <= 0 or rng.random() < 0.3:
-        return rng.choice(['1', '2', '3', '10', '.5', '0.25', '7', '12.5', '0', '100'])
+        return rng.choice(['1', '2', '3', '10', '.5', '0.25', '7', '12.5', '0', '100', '.1', '.2', '0.05', '0.3', '1.1', '0.7', '6', '4.'])
     r = rng.random()
     sp = rng.choice(['', '', ' '])
     if r < 0.2:
@@ -301,6 +301,7 @@ def rand_chain(rng):
 
 
 OPTS = (None, {'lookAhead': False}, {'whitespace': False})
+ETOKS = ['1', '2.5', '(', ')', '()', '(3)', '+', '-', '*', '/', '\\', ' ']
 
 
 def shards(tier, seed):
@@ -308,6 +309,8 @@ def shards(tier, seed):
     b = BOUNDS[tier]
     out = [{'kind': 'eval', 'part': p, 'nparts': n, 'maxlen': b['eval_len']} for p in range(n)]
     out += [{'kind': 'extract', 'part': p, 'nparts': n, 'maxlen': b['extract_len']} for p in range(n)]
+    out += [{'kind': 'intdiv'}]
+    out += [{'kind': 'tokens', 'part': p, 'nparts': 4, 'maxlen': 4 if tier == 'quick' else 6} for p in range(4)]
     out += [{'kind': 'random', 'n': 2500 if tier == 'quick' else 30000} for p in range(4 if tier == 'quick' else 8)]
     return out
 
@@ -325,6 +328,18 @@ def run_shard(desc, ctx):
                 for pos in list(range(len(s) + 1)) + [None]:
                     for opt in OPTS:
                         check_extract(s, pos, opt, 'extract:enum', ctx, api)
+        elif desc['kind'] == 'tokens':
+            # near-valid inputs: sequences of whole tokens (the character enumeration stops far below `(1)()(2)`)
+            for s in enum.strings(ETOKS, desc['maxlen'], desc['part'], desc['nparts'], minlen=1):
+                check_eval(s, 'eval:token-enum', ctx, api)
+        elif desc['kind'] == 'intdiv':
+            # integer division where the quotient is a whole number that binary floating point cannot represent exactly on the way
+            A = ['1', '2', '3', '0.5', '.3', '10', '7', '0.7', '1.1', '0.6', '4.5', '100', '.9', '2.4']
+            B = ['.1', '.2', '0.05', '.3', '0.7', '1.1', '.5', '0.25', '3', '7', '0.6', '.4', '1.5', '0.15']
+            for a in A:
+                for b in B:
+                    for s in (a + '\\' + b, '-' + a + '\\' + b, a + '\\-' + b, '(' + a + '+' + a + ')\\' + b, a + ' \\ ' + b + '+1', '-(' + a + '\\' + b + ')', a + '\\' + b + '\\' + b, a + '*10\\(' + b + '*10)'):
+                        check_eval(s, 'eval:intdiv', ctx, api)
         else:
             rng = ctx.rng
             garbage = list('0123456789.+-*/\\() \tabx,%^e') + ['\xa0', '\n', '1e3', '٣']
@@ -333,6 +348,19 @@ def run_shard(desc, ctx):
                 check_eval(rand_chain(rng), 'eval:random', ctx, api)
                 g = ''.join(rng.choice(garbage) for _ in range(rng.randint(1, 8)))
                 check_eval(g, 'eval:garbage', ctx, api)
+                # valid expressions with one to three token-level edits
+                m = rand_expr(rng, rng.randint(2, 6))
+                for _ in range(rng.randint(1, 3)):
+                    i = rng.randint(0, len(m))
+                    r = rng.random()
+                    if r < 0.6:
+                        m = m[:i] + rng.choice(['()', '(', ')', '(1)', '+', '-', '*', '/', '\\', '.', ' ', '1', '(2)', ')(', '()()', '1 2']) + m[i:]
+                    elif r < 0.8 and m:
+                        m = m[:max(0, i - 1)] + m[i:]
+                    else:
+                        j = rng.randint(0, len(m))
+                        m = m[:i] + m[min(i, j):max(i, j)] + m[i:]
+                check_eval(m, 'eval:mutation', ctx, api)
                 e = rng.choice(['a ', 'foo(', 'x=', '']) + rand_expr(rng, rng.randint(1, 4)) + rng.choice(['', ')', ' )', ') x', ' b'])
                 check_extract(e, rng.randint(0, len(e)), rng.choice(OPTS), 'extract:random', ctx, api)
     finally:
